@@ -5,7 +5,7 @@
    Weights are Z (the routines only move and test them), the random generator is an explicit
    stream of recorded draws.  Definitions only. *)
 From Coq Require Import ZArith List Arith Bool Lia QArith Qround.
-From BCT Require Import Base.Mat Base.ListX.
+From BCT Require Import Base.Mat Base.ListX Model.Components.
 Import ListNotations.
 Open Scope Z_scope.
 
@@ -302,9 +302,25 @@ Record result := mkres {
   r_left : nat            (* unread draws *)
 }.
 
+(* precondition checks of the two undirected `_connected` routines (BCTParamError otherwise):
+   np.allclose(R, R.T) and number_of_components(R) <= 1  (Model/Components.v is the model of get_components) *)
+Definition precheck (r : routine) (n : nat) (R0 : mat Z) : bool :=
+  if (is_und r && is_conn r)%bool then
+    match number_of_components n R0 with
+    | Some m => Nat.leb m 1
+    | None => false
+    end
+  else if is_und r then
+    match r with
+    | Randmio_und => symmetricb n R0      (* randmio_und checks symmetry; latmio_und does not *)
+    | _ => true
+    end
+  else true.
+
 (* randmio_* / latmio_*: R, itr, D (None -> ring distance), stream *)
 Definition run_routine (r : routine) (n : nat) (R0 : mat Z) (itr : nat) (D : option (mat Z)) (s0 : stream)
   : option result :=
+  if negb (precheck r n R0) then None else
   let pre :=
     if is_latt r then
       match s0 with
